@@ -418,6 +418,8 @@ func c10Cleanup(x *mc.Cell, r Role) {
 			if after.Status != wantT || cleanups != 1 {
 				x.Violate("C06", fmt.Sprintf("cleanup-restart;ending=%s;status=%s;cleanups=%d", ending, datatransfer.Statuses[after.Status], cleanups), "a channel persisted while cleaning up must finish cleanup when restarted: "+ctx, rep)
 				x.Violate("C10", fmt.Sprintf("cleanup-restart;ending=%s;status=%s;cleanups=%d", ending, datatransfer.Statuses[after.Status], cleanups), "a channel persisted while cleaning up must finish cleanup when restarted: "+ctx, rep)
+				// C09: the ending that was entered before the process died still gets its one cleanup and settles
+				x.Violate("C09", fmt.Sprintf("cleanup-restart;ending=%s;status=%s;cleanups=%d", ending, datatransfer.Statuses[after.Status], cleanups), "an ending entered before the process died is cleaned up exactly once and settles when the channel is restarted: "+ctx, rep)
 			}
 			if len(d.Sends) != 0 {
 				x.Violate("C10", "cleanup-restart;sent-something;ending="+ending, ctx, rep)
@@ -433,6 +435,7 @@ func init() {
 		mc.Register("C10", "incoming-restart/"+RoleNames[r], "both", func(x *mc.Cell) { c10Incoming(x, r) })
 		mc.Register("C10", "cleanup-restart/"+RoleNames[r], "both", func(x *mc.Cell) { c10Cleanup(x, r) })
 		mc.Register("C06", "l2-cleanup-restart/"+RoleNames[r], "both", func(x *mc.Cell) { c10Cleanup(x, r) })
+		mc.Register("C09", "l2-cleanup-restart/"+RoleNames[r], "both", func(x *mc.Cell) { c10Cleanup(x, r) })
 		mc.Register("C02", "l2-restart-terminated/"+RoleNames[r], "both", func(x *mc.Cell) { c10Local(x, r); c10Incoming(x, r) })
 	}
 }
